@@ -10,10 +10,14 @@ Python state ↔ model state
 * `_target` = `T`, `_sem_value` = `V`, `_semaphore._value` = `S`;
 * `holders` = tasks inside the `async with` block (oldest first);
 * `waiters` = tasks blocked in `Semaphore.acquire()` whose future is not done, FIFO (`_waiters`);
-* `leaked` is a ghost counter (no Python counterpart): permits taken by entrants that were then
-  refused by `_retarget_semaphore` — `__aenter__` raised, so `__aexit__` never runs and the permit
-  is not given back (pinned behaviour; `test_concurrency_control` says "We deliberately don't
-  recover from 0"). -/
+* `fixed = true` (the default, what every theorem is about): the class **as repaired by
+  fixes/F23-limiter-last-permit.diff** — `__aenter__` hands the permit back when
+  `_retarget_semaphore` refuses entry, `__aexit__` never retires the last permit
+  (`if self._sem_value > max(self._target, 1)`) and `__init__` starts with at least one.  `fixed = false`: the pinned class (a refused
+  entrant keeps its permit; capacity is retired down to the target, also to 0 — after which nobody
+  can ever enter again, see `*_fails_pinned` in Props.lean);
+* `leaked` is a ghost counter (no Python counterpart): permits kept by refused entrants — only
+  the pinned variant ever increments it. -/
 namespace Aiorpcx.C13
 
 structure Lim where
@@ -23,6 +27,7 @@ structure Lim where
   leaked : Nat
   holders : List Nat
   waiters : List Nat
+  fixed : Bool := true
   deriving Repr, DecidableEq
 
 inductive Ev where
@@ -67,7 +72,12 @@ def grow : Nat → Work → Work
 /-- what task `i` does once `acquire()` has returned: `_retarget_semaphore`, then the body -/
 def admitTask (i : Nat) (w : Work) : Work :=
   if w.st.T ≤ 0 then
-    { w with st := { w.st with leaked := w.st.leaked + 1 }, evs := w.evs ++ [Ev.refused i] }
+    -- `_retarget_semaphore` raises `ExcessiveSessionCostError`
+    if w.st.fixed then
+      -- F23: `except ExcessiveSessionCostError: self._semaphore.release(); raise`
+      release { w with evs := w.evs ++ [Ev.refused i] }
+    else
+      { w with st := { w.st with leaked := w.st.leaked + 1 }, evs := w.evs ++ [Ev.refused i] }
   else
     let w' := grow (w.st.T - w.st.V).toNat w
     { w' with st := { w'.st with holders := w'.st.holders ++ [i] },
@@ -91,6 +101,10 @@ def finish (w : Work) : Lim × List Ev :=
   let w' := drain (w.woken.length + w.st.waiters.length) w
   (w'.st, w'.evs)
 
+/-- `Concurrency.__aexit__` retires a unit of capacity instead of releasing when `_sem_value` is
+above this: the target — but (F23) never below 1, so the last permit stays in circulation -/
+def retireBound (s : Lim) : Int := if s.fixed then max s.T 1 else s.T
+
 def step (s : Lim) : Op → Lim × List Ev
   | .enter i =>
       -- `Semaphore.locked()`: `_value == 0 or any(not w.cancelled() for w in _waiters)`
@@ -102,7 +116,7 @@ def step (s : Lim) : Op → Lim × List Ev
       if i ∈ s.holders then
         let s1 := { s with holders := s.holders.erase i }
         -- `Concurrency.__aexit__`
-        if s1.V > s1.T then ({ s1 with V := s1.V - 1 }, [])
+        if s1.V > retireBound s1 then ({ s1 with V := s1.V - 1 }, [])
         else finish (release ⟨s1, [], []⟩)
       else (s, [Ev.bad])
   | .cancelWaiter i =>
@@ -110,8 +124,11 @@ def step (s : Lim) : Op → Lim × List Ev
       else (s, [Ev.bad])
   | .setTarget n => ({ s with T := n }, [])
 
-/-- `Concurrency(n)` -/
-def init (n : Nat) : Lim := ⟨n, n, n, 0, [], []⟩
+/-- `Concurrency(n)`, any `n` (repaired class: `_sem_value = max(target, 1)` — at least one permit
+is in circulation from the start, so that an initial limit ≤ 0 refuses instead of parking) -/
+def init (n : Int) : Lim := ⟨n, max n 1, max n 1, 0, [], [], true⟩
+/-- the pinned class (before F23): `Semaphore(n)`, `_sem_value = n` -/
+def initPinned (n : Nat) : Lim := ⟨n, n, n, 0, [], [], false⟩
 
 def run (s : Lim) : List Op → Lim × List Ev
   | [] => (s, [])
